@@ -31,7 +31,7 @@ import (
 
 type reinitStats struct {
 	Ops, Scenarios, Reinits, HashEdits, HashEditKinds               int
-	ReinitCrashEffects, ReinitCrashRuns, LateForged, RogueProposals int
+	ReinitCrashEffects, ReinitCrashRuns, LateForged, RogueProposals, EarlyProposals int
 	OutcomeHist                                                     map[string]int
 	Monitors, Notes, Samples                                        []string
 	// machines restarted after the re-initialisation, batches signed by restarted machines (reinitrestart.go)
@@ -98,7 +98,15 @@ func genuinelySigned(c *cluster, m storage.Message) bool {
 }
 
 func (r *reinitRun) scenario(outDir string, n, t int, interleave, junk, adapt, blankIDs bool) {
+	r.scenarioE(outDir, n, t, interleave, junk, adapt, blankIDs, false)
+}
+
+// scenarioE: early = the junk also holds a signing proposal posted while the key generation has hardly begun
+func (r *reinitRun) scenarioE(outDir string, n, t int, interleave, junk, adapt, blankIDs, early bool) {
 	tag := fmt.Sprintf("(n=%d,t=%d interleaved=%v junk=%v adapt=%v blank-ids=%v)", n, t, interleave, junk, adapt, blankIDs)
+	if early {
+		tag = fmt.Sprintf("(n=%d,t=%d interleaved=%v junk=%v adapt=%v blank-ids=%v early-signing-proposal=true)", n, t, interleave, junk, adapt, blankIDs)
+	}
 	dir, _ := os.MkdirTemp(outDir, "reinit")
 	defer os.RemoveAll(dir)
 	// the original ceremony
@@ -138,6 +146,14 @@ func (r *reinitRun) scenario(outDir string, n, t int, interleave, junk, adapt, b
 				r.st.RogueProposals++
 			}
 		}
+	}
+	if early {
+		// … and a signing proposal for this round posted while its key generation has hardly begun (by a participant, with a
+		// signature that does not verify): every node of the original ceremony refuses it - the round is nowhere near idle
+		early, _ := json.Marshal(map[string]interface{}{"BatchID": "too-early", "ParticipantId": 0, "SrcPayload": []byte("[]"), "CreatedAt": "2023-01-01T00:00:00Z"})
+		a.nodes[0].stg.Send(storage.Message{ID: "early-signing-start", DkgRoundID: round, Event: "event_signing_start", Data: early,
+			Signature: bytes.Repeat([]byte{9}, 64), SenderAddr: a.nodes[0].name})
+		r.st.EarlyProposals++
 	}
 	rngPump := rand.New(rand.NewSource(r.rng.Int63()))
 	if !junk {
@@ -331,6 +347,11 @@ func (r *reinitRun) scenario(outDir string, n, t int, interleave, junk, adapt, b
 			r.mon(fmt.Sprintf("C20 shares_reproduced %s: machine %d holds %s after the reinitialisation, originally %s", tag, i, truncate(got, 80), truncate(origKeys[i], 80)))
 			break
 		}
+	}
+	if early {
+		// (what follows - forged messages after the re-initialisation, signing, restarts, hash edits - is the business of the
+		// other scenarios; here only: is the round there again)
+		return
 	}
 	if other != "" {
 		for i, nd := range b.nodes {
@@ -532,6 +553,8 @@ func runReinitDiff(outDir string, seed int64, tier string) {
 	for _, c := range cfgs {
 		r.scenario(outDir, c.n, c.t, c.interleave, c.junk, c.adapt, c.blankIDs)
 	}
+	// a junk log with a signing proposal in the middle of the key generation (known finding C20-early-signing-proposal)
+	r.scenarioE(outDir, 2, 2, false, true, false, false, true)
 	r.crashInReinit(outDir, 2, 2, tier == "thorough")
 	if tier == "thorough" {
 		r.crashInReinit(outDir, 3, 2, true)
